@@ -117,8 +117,13 @@ func (g *G) genFlow(idx int, f *FlowSpec) {
 		jn = append(jn, n)
 	}
 	expire := []int{10080, 0, 5, 60, 43200}[t.Weighted("expire", 5, 2, 2, 1, 1)]
+	spec := "13.6.0"
+	if g.P.OldVersions && t.Chance("old_spec_version", 1, 4) {
+		// stored by an older release and never re-saved: the engine migrates it when it is first loaded
+		spec = []string{"13.0.0", "13.1.0", "13.2.0", "13.3.0", "13.4.0", "13.5.0"}[t.Pick("which_old_version", 6)]
+	}
 	f.Def = J{
-		"uuid": f.UUID, "name": f.Name, "spec_version": "13.6.0", "language": f.Lang, "type": f.Type,
+		"uuid": f.UUID, "name": f.Name, "spec_version": spec, "language": f.Lang, "type": f.Type,
 		"revision": f.Revision, "expire_after_minutes": expire, "localization": loc, "nodes": jn,
 	}
 }
